@@ -25,6 +25,9 @@ def wall_for(cfg):
     rmin, rmax, zmin, zmax = 1.2, 1.8, -0.5, 0.5
     if kind == "rect":
         w = [(rmin, zmin), (rmin, zmax), (rmax, zmax), (rmax, zmin)]
+    elif kind == "high_floor":
+        # the floor passes above the lower X-point of the double-null families (Z = -0.30): that X-point is outside the wall
+        w = [(rmin, -0.27), (rmin, zmax), (rmax, zmax), (rmax, -0.27)]
     elif kind == "slant":
         # slanted lower and upper targets
         w = [(rmin, zmin + 0.03), (rmin, zmax - 0.02), (rmax, zmax + 0.04), (rmax, zmin - 0.05)]
